@@ -499,3 +499,56 @@ mut('c11-conversion-order', 'C11', ['C11.5'], M,
     "            kwargs['error'] = kwargs['result']\n            kwargs['status'] = 'error'\n            kwargs['result'] = None\n",
     "            kwargs['result'] = None\n            kwargs['error'] = kwargs['result']\n            kwargs['status'] = 'error'\n",
     'error set from the already-cleared result')
+
+# ================================================================================================ C12
+mut('c12-skip-validation-lists', 'C12', ['C12.1'], M,
+    "                if isinstance(result, BaseEvent):\n                    self.result = cast(T_EventResultType, result)\n",
+    "                if isinstance(result, (BaseEvent, list)):\n                    self.result = cast(T_EventResultType, result)\n",
+    'list results stored without validation')
+mut('c12-store-raw-after-validate', 'C12', ['C12.1'], M,
+    "                        self.result = cast(T_EventResultType, validated_result)\n",
+    "                        self.result = cast(T_EventResultType, result)\n",
+    'raw value stored instead of the validated one')
+mut('c12-validation-error-keeps-value', 'C12', ['C12.1'], M,
+    "                        self.result = None\n                        self.status = 'error'\n",
+    "                        self.result = cast(T_EventResultType, result)\n                        self.status = 'error'\n",
+    'a non-conforming value is kept on the error result')
+mut('c12-validation-error-completed', 'C12', ['C12.1'], M,
+    "                        self.result = None\n                        self.status = 'error'\n",
+    "                        self.result = None\n",
+    'a non-conforming value ends completed with result None')
+mut('c12-revert-f12', 'C12', ['C12.2'], M,
+    "                        if isinstance(self.result_type, type) and issubclass(self.result_type, BaseModel):",
+    "                        if issubclass(self.result_type, BaseModel):",
+    'issubclass on non-class result types (F12 reverted)')
+mut('c12-name-deref', 'C12', ['C12.2'], M,
+    "                        result_type_name = getattr(self.result_type, '__name__', None) or str(self.result_type)\n",
+    "                        result_type_name = self.result_type.__name__\n",
+    '__name__ dereferenced on a non-class type')
+mut('c12-swap-flags', 'C12', ['C12.3'], M,
+    "        valid_results = await self.event_results_filtered(\n            timeout=timeout, include=include, raise_if_any=raise_if_any, raise_if_none=raise_if_none\n        )\n        return [cast(",
+    "        valid_results = await self.event_results_filtered(\n            timeout=timeout, include=include, raise_if_any=raise_if_none, raise_if_none=raise_if_any\n        )\n        return [cast(",
+    'event_results_list swaps raise_if_any / raise_if_none')
+mut('c12-sorted-values', 'C12', ['C12.3'], M,
+    "        return [cast(T_EventResultType | None, event_result.result) for event_result in valid_results.values()]",
+    "        return [cast(T_EventResultType | None, event_result.result) for event_result in sorted(valid_results.values(), key=lambda r: r.handler_name)]",
+    'list view sorted by handler name')
+mut('c12-last-result', 'C12', ['C12.3'], M,
+    "        return cast(T_EventResultType | None, results[0].result) if results else None",
+    "        return cast(T_EventResultType | None, results[-1].result) if results else None",
+    'event_result returns the last result')
+mut('c12-flat-list-drops-include', 'C12', ['C12.3'], M,
+    "            include=lambda event_result: isinstance(event_result.result, list) and include(event_result),",
+    "            include=lambda event_result: isinstance(event_result.result, list),",
+    'flat_list ignores the caller\'s include filter')
+mut('c12-by-name-filters', 'C12', ['C12.3'], M,
+    "            event_result.handler_name: cast(T_EventResultType | None, event_result.result)\n            for event_result in included_results.values()\n",
+    "            event_result.handler_name: cast(T_EventResultType | None, event_result.result)\n            for event_result in included_results.values()\n            if event_result.result is not None\n",
+    'by_handler_name drops None values')
+mut('c12-include-plus-filter', 'C12', ['C12.4'], M,
+    "            handler_key: event_result for handler_key, event_result in event_results.items() if include(event_result)\n",
+    "            handler_key: event_result for handler_key, event_result in event_results.items() if include(event_result) and event_result.completed_at\n",
+    'included set filtered by more than include')
+mut('c12-raise-if-none-inverted', 'C12', ['C12.4'], M,
+    "        if raise_if_none and not included_results:\n", "        if raise_if_none and not event_results:\n",
+    'raise_if_none tests all results instead of the included ones')
